@@ -153,6 +153,7 @@ func init() {
 		type replayKey struct{ der []byte; cfg, sts, why string }
 		var replays []replayKey
 		for ki, k := range keys {
+			tick()
 			// the model's Fermat loop costs one 2048-bit integer square root per round inside Coq: keep the default
 			// 100 rounds on a subset and configure 2 rounds elsewhere (the Fermat-specific keys carry their own rounds)
 			if k.rnds == 0 && k.n.BitLen() > 600 && ki%20 != 0 && !strings.HasPrefix(k.why, "fermat") && !strings.HasPrefix(k.why, "square") {
@@ -333,6 +334,52 @@ func init() {
 			}
 		}
 		out.Data["blackbox_rejected_upto_2000"] = len(bb)
+		// the trial division itself, against exact arithmetic, for many cofactors of every size per divisor (a fast path
+		// that is right for most residues is still wrong): every prime below 752 times cofactors of 1..2048 bits, and
+		// moduli without small factors
+		{
+			nCof := 120
+			if tier() == "thorough" {
+				nCof = 2000
+			}
+			var smallPrimes []int64
+			for n := int64(2); n < 752; n++ {
+				if big.NewInt(n).ProbablyPrime(20) {
+					smallPrimes = append(smallPrimes, n)
+				}
+			}
+			hasSmall := func(n *big.Int) bool {
+				m := new(big.Int)
+				for _, p := range smallPrimes {
+					if m.Mod(n, big.NewInt(p)).Sign() == 0 {
+						return true
+					}
+				}
+				return false
+			}
+			sizes := []int{8, 31, 32, 33, 63, 64, 65, 127, 128, 129, 512, 1024, 2040, 2048}
+			wrong := 0
+			for _, p := range smallPrimes {
+				for k := 0; k < nCof; k++ {
+					cof := rnd(sizes[(k+int(p))%len(sizes)])
+					cof.SetBit(cof, 0, 1)
+					n := new(big.Int).Mul(big.NewInt(p), cof)
+					if util.PrimeNoSmallerThan752(n) && wrong < 5 {
+						wrong++
+						out.Violate("C16|small-factor-missed", fmt.Sprintf("PrimeNoSmallerThan752 accepts a modulus divisible by %d", p), map[string]interface{}{"modulus": n.String(), "factor": p}, false, true)
+					}
+				}
+			}
+			for k := 0; k < 40*nCof; k++ {
+				n := rnd(sizes[k%len(sizes)])
+				n.SetBit(n, 0, 1)
+				if got, want := util.PrimeNoSmallerThan752(n), !hasSmall(n); got != want && wrong < 10 {
+					wrong++
+					out.Violate("C16|small-factor-test-wrong", fmt.Sprintf("PrimeNoSmallerThan752(%s) = %v, exact trial division by the primes below 752 says %v", n.String(), got, want), map[string]interface{}{"modulus": n.String()}, want, got)
+				}
+			}
+			out.Stats["trial_division_probes"] = len(smallPrimes)*nCof + 40*nCof
+		}
 		return out.Emit()
 	}
 }
